@@ -319,7 +319,12 @@ class Network(SimComponent):
         if node not in self:
             _LOGGER.warning(f"Can't remove node {node.config.hostname}. It's not in the network.")
             return
+        for link in list(self.links.values()):
+            if any(ep is not None and ep._connected_node is node for ep in (link.endpoint_a, link.endpoint_b)):
+                self.remove_link(link)
         self.nodes.pop(node.uuid)
+        if self._nx_graph.has_node(node.config.hostname):
+            self._nx_graph.remove_node(node.config.hostname)
         for i, _node in self._node_id_map.items():
             if node == _node:
                 self._node_id_map.pop(i)
